@@ -1,8 +1,8 @@
 package props
 
 import (
-	"strings"
 	"go/types"
+	"strings"
 
 	"godcheck/core"
 
